@@ -128,12 +128,13 @@ func (r *Req) Src(mode uint8, chunk uint32, closeAtEnd, exact bool, list []uint3
 }
 
 // Dst sets the destination plan. mode 0 ample(cap), 1 growing window (cap, step), 2 fresh windows (step).
-func (r *Req) Dst(mode uint8, cap, step uint32, fill uint8) *Req {
+func (r *Req) Dst(mode uint8, cap, step uint32, fill uint8, flushOnRead bool) *Req {
 	r.u8('D')
 	r.u8(mode)
 	r.u32(cap)
 	r.u32(step)
 	r.u8(fill)
+	r.u8(b2u(flushOnRead))
 	return r
 }
 
@@ -171,6 +172,9 @@ func (r *Req) WorkLen(n uint32) *Req { r.u8('K'); r.u32(n); return r }
 
 // Call (raw mode) makes one call. variant bits: 1 NULL dst, 2 NULL src, 4 short workbuf, 8 NULL receiver.
 func (r *Req) Call(method, variant uint8) *Req { r.u8('C'); r.u8(method); r.u8(variant); return r }
+
+// NewPayload switches the session to another payload (source, output and counters are reset).
+func (r *Req) NewPayload(p []byte) *Req { r.u8('N'); r.u32(uint32(len(p))); r.buf.Write(p); return r }
 
 // Dump emits the accumulated output.
 func (r *Req) Dump() *Req { r.u8('O'); return r }
@@ -391,6 +395,8 @@ func Parse(body []byte) (*Resp, error) {
 			p.Hash = append([]byte(nil), rec.bytes(int(rec.u32()))...)
 		case 'V':
 			p.Violations = append(p.Violations, rec.str())
+		case 'X': // a new payload starts: results of the earlier decode are dropped, violations kept
+			*p = Resp{Inits: p.Inits, ObjSize: p.ObjSize, Violations: p.Violations}
 		case 'E':
 			p.NViol = rec.u32()
 		default:
